@@ -3,6 +3,7 @@ package lib
 import (
 	"fmt"
 	"math/rand"
+	"sort"
 	"strings"
 )
 
@@ -66,10 +67,19 @@ func CheckC03(run *Run) {
 	reqs = append(reqs, SharedRouteRequest(), DoubleSlashRequest(), NoSlashRequest(), RootPathRequest())
 	reqs = append(reqs, SiblingRequest(), OddTemplateRequest())
 	reqs = append(reqs, TemplateFamilyRequests()...)
+	// what is left for the body (nothing / one field / query-only ...), path variables against the
+	// declaration order, request messages sharing a short name (nested, and two packages in one run)
+	reqs = append(reqs, BodyShapeRequests()...)
+	reqs = append(reqs, PathOrderRequests()...)
+	reqs = append(reqs, SameShortNameRequests()...)
 	n, nt := 8, 8
+	nb, no := 6, 4
 	if run.Tier == "thorough" {
 		n, nt = 400, 200
+		nb, no = 150, 100
 	}
+	reqs = append(reqs, RandomBodyShapeRequests(rand.New(rand.NewSource(run.Seed+313)), nb)...)
+	reqs = append(reqs, RandomPathOrderRequests(rand.New(rand.NewSource(run.Seed+323)), no)...)
 	reqs = append(reqs, RandomRouteRequests(rand.New(rand.NewSource(run.Seed+3)), n)...)
 	reqs = append(reqs, RandomTemplateFamilyRequests(rand.New(rand.NewSource(run.Seed+303)), nt)...)
 
@@ -103,17 +113,11 @@ func CheckC03(run *Run) {
 			pre := genPrefix(f)
 			gs := GoServerRoutes(g.Results["go-http"].Files[pre+"_http.pb.go"])
 			gc := GoClientRoutes(g.Results["go-client"].Files[pre+"_client.pb.go"])
-			var tcSrc, tsSrc string
-			for n, c := range g.Results["ts-client"].Files {
-				if strings.HasSuffix(n, "_client.ts") && strings.Contains(n, strings.TrimSuffix(pathBase(f.Path), ".proto")) {
-					tcSrc = c
-				}
-			}
-			for n, c := range g.Results["ts-server"].Files {
-				if strings.HasSuffix(n, "_server.ts") && strings.Contains(n, strings.TrimSuffix(pathBase(f.Path), ".proto")) {
-					tsSrc = c
-				}
-			}
+			tcSrc := tsFileInPkg(g.Results["ts-client"].Files, f, "_client.ts")
+			tsSrc := tsFileInPkg(g.Results["ts-server"].Files, f, "_server.ts")
+			// does the emitted server read a body for this RPC: the verb literal handed to BindingMiddleware
+			// against the verbs BindingMiddleware binds a body for (not the verb of the registered pattern)
+			GoServerBodyBinding(gs, g.Results["go-http"].Files[pre+"_http.pb.go"], g.Results["go-http"].Files[pre+"_http_binding.pb.go"])
 			tc := TsClientRoutes(tcSrc)
 			tss := TsServerRoutes(tsSrc)
 			for _, s := range f.Services {
@@ -218,6 +222,27 @@ func CheckC03(run *Run) {
 	}
 	run.Extra["schemas"] = len(reqs)
 	run.Finish()
+}
+
+// tsFileInPkg picks the TypeScript file emitted for a proto file: the one in the file's own Go-package
+// directory when several generated files share a base name (two packages in one run).
+func tsFileInPkg(files map[string]string, f *File, suffix string) string {
+	base := strings.TrimSuffix(pathBase(f.Path), ".proto")
+	exact := goImportPath(f.GoPackage) + "/" + base + suffix
+	if c, ok := files[exact]; ok {
+		return c
+	}
+	var names []string
+	for n := range files {
+		if strings.HasSuffix(n, suffix) && strings.Contains(n, base) {
+			names = append(names, n)
+		}
+	}
+	sort.Strings(names)
+	if len(names) == 0 {
+		return ""
+	}
+	return files[names[len(names)-1]]
 }
 
 func pathBase(p string) string {
